@@ -72,7 +72,8 @@ package rwc
 //@   nosweep nil-deref
 //@   assert at call invoke.Read: true
 //@   assert at send: 1 <= len(sent) && rdpos[p.rwc] == atcall(invoke.Read, rdpos[recv]) + len(sent)
-//@   assert at send: forall i int trigger sent[i] :: 0 <= i && i < len(sent) ==> sent[i] == rddata(p.rwc, atcall(invoke.Read, rdpos[recv]) + i)
+//@   assert at send: len(sent) == n && content(sent) == content(pktBuf)[0..n]
+//@   assert at send: forall i int trigger pktBuf[i] :: 0 <= i && i < n ==> pktBuf[i] == rddata(p.rwc, atcall(invoke.Read, rdpos[recv]) + i)
 //@   assert at call Put: n == 0
 // bytes that a Read returned are offered before its error ends the pump (unless the pump was cancelled)
 //@   assert at exit: rerr != context.Canceled && n > 0 ==> chanSent[p.packetCh] == atcall(invoke.Read, chanSent[p.packetCh]) + 1
